@@ -84,6 +84,58 @@ def _short(cp):
     return str(d)
 
 
+def sympos_build(item):
+    """bin / bin_array whose range POSITIONS are symbolic (sizes, adjacency pattern and argument order enumerated)"""
+    import vsc
+    sizes = item["sizes"]          # sizes of the ranges in ascending position order
+    gaps = item["gaps"]            # "adj" (touching) or "gap" (at least one value between) for consecutive ranges
+    order = item["order"]          # permutation: order in which the ranges are passed to the library
+    nb = item["nbins"]
+    kind = item["bkind"]
+    W = 12
+    sig = {"harness": "sympos", "bkind": kind}
+
+    def h(sym):
+        e3.reset_coverage_registry()
+        ps = []
+        prev_hi = None
+        for i, sz in enumerate(sizes):
+            p = sym.int("p%d" % i, 0, (1 << W) - 1)
+            if prev_hi is not None:
+                sym.assume((p == prev_hi + 1) if gaps[i - 1] == "adj" else (p > prev_hi + 1))
+            hi = p + (sz - 1)
+            sym.assume(hi <= (1 << W) - 1)
+            ps.append((p, hi))
+            prev_hi = hi
+        rngs = [[lo, hi] for lo, hi in ps]
+        args = [tuple(rngs[j]) if sizes[j] > 1 or kind == "array" else rngs[j][0] for j in order]
+        if kind == "bin":
+            bins = {"b": vsc.bin(*args)}
+            ref = [rngs]
+        else:
+            bins = {"a": vsc.bin_array([] if nb is None else [nb], *args)}
+            ref = covref.partition_ranges(rngs, nb)
+
+        @vsc.covergroup
+        class CG(object):
+            def __init__(self):
+                self.with_sample(dict(a=vsc.bit_t(W)))
+                self.cp = vsc.coverpoint(self.a, bins=bins)
+        cg = CG()
+        cpm = cg.get_model().coverpoint_l[0]
+        v = sym.int("v", 0, (1 << W) - 1)
+        sym.check("n_bins", cpm.get_n_bins() == len(ref))
+        cg.sample(v)
+        for i in range(min(cpm.get_n_bins(), len(ref))):
+            sym.check("bin_hits[%d]" % i, (cpm.get_bin_hits(i) == 1) == in_ranges_sym(v, ref[i]))
+    return dict(harness=h, theory="int", sig=sig, standins=e3.coverage_standins, max_paths=4000, max_seconds=120,
+                desc="symbolic positions %s sizes=%s gaps=%s order=%s nbins=%s" % (kind, sizes, gaps, order, nb))
+
+
+def in_ranges_sym(v, rngs):
+    return Or(*[And(v >= lo, v <= hi) for lo, hi in rngs])
+
+
 def kernel_build(item):
     """RangelistModel.compact / intersect with symbolic endpoints (disjoint inputs as the property quantifies)"""
     from vsc.model.rangelist_model import RangelistModel
@@ -236,6 +288,17 @@ def main():
               "kernels: compact() with 2..%d and intersect() with 2x1, 2x2%s symbolic disjoint ranges, endpoints |x| <= 2^40" % (3 if t == "quick" else 4, "" if t == "quick" else ", 3x2"))
     chk.extra["rule"] = "one evaluation = one coverpoint specification (or kernel configuration) explored over all paths; distinct = distinct specifications"
     e3.run_e3(chk, shapes(t, seed()), build, replay_module="checks.c10")
+    sp = []
+    for sizes, gaps in (((3,), ()), ((2, 3), ("gap",)), ((2, 3), ("adj",)), ((1, 4, 2), ("gap", "gap")), ((3, 1, 2), ("adj", "gap")), ((2, 2, 2), ("gap", "adj"))):
+        perms = list(itertools.permutations(range(len(sizes))))
+        for order in (perms if t == "thorough" else perms[:1] + perms[-1:]):
+            sp.append(dict(sizes=sizes, gaps=gaps, order=order, nbins=None, bkind="bin"))
+            # one-bin-per-value arrays index their hit list by (value - low): with a symbolic low that realises the
+            # position value by value, so symbolic positions are used for bag bins and true partitions only
+            for nb in (1, 2, 3):
+                if nb < sum(sizes):
+                    sp.append(dict(sizes=sizes, gaps=gaps, order=order, nbins=nb, bkind="array"))
+    e3.run_e3(chk, sp, sympos_build, replay_module="checks.c10:sympos")
     kitems = [dict(kind="compact", n=2), dict(kind="compact", n=3), dict(kind="intersect", n=2, m=1), dict(kind="intersect", n=2, m=2)]
     if t == "thorough":
         kitems += [dict(kind="compact", n=4), dict(kind="intersect", n=3, m=2)]
